@@ -262,6 +262,8 @@ const S2_ADD: &[&str] = &[
     // lands in the bucket of the two initial `/adv/track*` rules (already fused in scenario 4):
     // optimize() after this add fuses a fused rule again
     "/adv/track*frame",
+    // no pattern token, two initiator domains: filed once per domain
+    "*$script,domain=d1.com|d2.com",
 ];
 const S2_URLS: &[(&str, &str)] = &[
     ("https://b1.com/x", "script"),
@@ -276,6 +278,9 @@ const S2_URLS: &[(&str, &str)] = &[
     ("https://z.com/adv/track1pixel", "script"),
     ("https://z.com/adv/track1beacon", "script"),
     ("https://z.com/adv/track1frame", "script"),
+    // a pattern-less rule with two initiator domains is reachable from both
+    ("https://lib.test/x.js?from=d1.com", "script"),
+    ("https://lib.test/x.js?from=d2.com", "script"),
 ];
 
 #[derive(Clone, Copy, Debug, PartialEq)]
@@ -317,7 +322,12 @@ fn s2_query(b: &Blocker, res: &ResourceStorage, o: &Op2) -> Ans {
     match o {
         Op2::Check(i) => {
             let (u, t) = S2_URLS[*i];
-            Ans::Net(Verdict::of(&b.check(&Request::new(u, "https://y.com/", t).unwrap(), res)))
+            // (URLs on lib.test are asked from the initiator named in their query string)
+            let src = match u.split_once("?from=") {
+                Some((_, d)) => format!("https://{}/", d),
+                None => "https://y.com/".to_string(),
+            };
+            Ans::Net(Verdict::of(&b.check(&Request::new(u, &src, t).unwrap(), res)))
         }
         Op2::Csp => Ans::Csp(csp_set(&b.get_csp_directives(&Request::new("https://c.com/", "https://c.com/", "document").unwrap()))),
         _ => unreachable!(),
@@ -334,7 +344,6 @@ struct S2 {
 
 fn s2_prepare(depth: usize, optimize: bool) -> S2 {
     let ops = s2_ops();
-    let res = ResourceStorage::from_resources(resources());
     let mut expected = HashMap::new();
     // every ordered arrangement of <= depth added rules
     fn rec(cur: &mut Vec<u8>, depth: usize, out: &mut Vec<Vec<u8>>) {
@@ -352,16 +361,37 @@ fn s2_prepare(depth: usize, optimize: bool) -> S2 {
     }
     let mut states = vec![];
     rec(&mut vec![], depth.min(S2_ADD.len()), &mut states);
-    for st in states {
-        let mut rules: Vec<&str> = S2_INITIAL.to_vec();
-        rules.extend(st.iter().map(|&i| S2_ADD[i as usize]));
-        for tag in [false, true] {
-            let mut b = s2_blocker(&rules, optimize);
-            if tag {
-                b.use_tags(&["a"]);
-            }
-            let v = ops.iter().map(|o| if is_query2(o) { Some(s2_query(&b, &res, o)) } else { None }).collect();
-            expected.insert((st.clone(), tag), v);
+    // (the reference answers of the model states are independent of each other: computed on all
+    // cores, each state on a fresh blocker of its own)
+    let threads = 16usize;
+    let parts: Vec<Vec<((Vec<u8>, bool), Vec<Option<Ans>>)>> = std::thread::scope(|sc| {
+        let hs: Vec<_> = (0..threads)
+            .map(|t| {
+                let (states, ops) = (&states, &ops);
+                sc.spawn(move || {
+                    let res = ResourceStorage::from_resources(resources());
+                    let mut out = vec![];
+                    for st in states.iter().skip(t).step_by(threads) {
+                        let mut rules: Vec<&str> = S2_INITIAL.to_vec();
+                        rules.extend(st.iter().map(|&i| S2_ADD[i as usize]));
+                        for tag in [false, true] {
+                            let mut b = s2_blocker(&rules, optimize);
+                            if tag {
+                                b.use_tags(&["a"]);
+                            }
+                            let v: Vec<Option<Ans>> = ops.iter().map(|o| if is_query2(o) { Some(s2_query(&b, &res, o)) } else { None }).collect();
+                            out.push(((st.clone(), tag), v));
+                        }
+                    }
+                    out
+                })
+            })
+            .collect();
+        hs.into_iter().map(|h| h.join().unwrap()).collect()
+    });
+    for part in parts {
+        for (k, v) in part {
+            expected.insert(k, v);
         }
     }
     S2 { optimize, ops, expected }
@@ -676,7 +706,7 @@ fn check(ctx: &Ctx) -> i32 {
     // depth per scenario (S1 needs 5 operations for the shortest address-reuse history)
     let depths: [usize; 3] = ctx.tier.pick([5, 4, 5], [6, 5, 6]); // S1: core operations at this depth, all operations one step shallower
     ctx.bound("history_depth_s1_s2_s3", json!(depths));
-    let p = Prepared { s1: s1_prepare(), s2: s2_prepare(depths[1], false), s3: s3_prepare(), s4: s2_prepare(depths[1], true) };
+    let p = Prepared { s1: s1_prepare(), s2: s2_prepare(depths[1] - 1, false), s3: s3_prepare(), s4: s2_prepare(depths[1] - 1, true) }; // (the last operation of a history is a query: at most depth-1 rules are added)
     ctx.bound("s1_operations", p.s1.ops.len());
     ctx.bound("s2_operations", p.s2.ops.len());
     ctx.bound("s3_operations", p.s3.ops.len());
